@@ -275,6 +275,20 @@ def worker(case, led):
             led.check(np.abs(Ad / np.linalg.norm(Ad) - ref).max() <= 1e-9, "post:ThermalProp.evolve_exact:local_gibbs_state", "ThermalProp.evolve_exact",
                       f"deviates from the normalised expm(-beta/2 H_loc) A0 by {np.abs(Ad / np.linalg.norm(Ad) - ref).max():.2e}", key, {"space": space},
                       {"nmol": nmol, "scheme": scheme, "space": space, "beta": beta, "seed": seed})
+            # the same job continued with a DIFFERENT step (tp.evolve twice): total inverse temperature = sum of the steps taken
+            try:
+                tp_c = ThermalProp(getattr(MpDm, ctor)(model), exact=True, space=space)
+                tp_c.evolve(beta / 6j, 1)
+                tp_c.evolve(beta / 3j, 1)
+                Cd = S.dense(tp_c.latest_mps)
+                dev = np.abs(Cd / np.linalg.norm(Cd) - ref).max()
+                led.check(dev <= 1e-9, "post:ThermalProp.evolve_exact:continued_with_another_step_size", "ThermalProp.evolve_exact",
+                          f"one step of beta/6 then one of beta/3 (same job): deviates from the normalised expm(-beta/2 H_loc) A0 by {dev:.2e}", key + ("two-steps",), {"space": space},
+                          {"nmol": nmol, "scheme": scheme, "space": space, "beta": beta, "seed": seed, "calls": "tp.evolve(beta/6j, 1); tp.evolve(beta/3j, 1)"})
+                led.check(abs(tp_c.evolve_times[-1] - (beta / 6j + beta / 3j)) <= 1e-12, "post:ThermalProp.evolve:times_accumulate", "ThermalProp.evolve",
+                          f"evolve_times {tp_c.evolve_times}", key + ("two-steps-time",), {"space": space}, {})
+            except Exception as e:
+                led.check(False, "post:ThermalProp.evolve_exact:total", "ThermalProp.evolve_exact", f"continued job raised {type(e).__name__}: {e}", key + ("two-steps",), {"space": space}, {})
             # continued from a density operator that is NOT the identity on the vibrations (the result of the run above in the other space's propagator does not
             # commute with this one; a loaded / previously thermalised state): the propagator acts from the PHYSICAL side, P rho, not rho P
             try:
